@@ -107,21 +107,36 @@ def parseWhole? (toks : List String) : Option Shape :=
   | some (s, []) => some s
   | _ => none
 
+def evalResp (st : St) (mode : String) (tol : Rat) (xs ys : List Rat) (s : Shape) : St × String :=
+  if mode == "sep" then
+    let pts := sepPoints xs ys
+    let vals := evalSep s xs ys
+    (st, s!"ok {showRatList vals} {showList showBool (pts.map (near tol s))} {showBool (vals == pts.map (val s))}")
+  else if mode == "pts" then
+    if xs.length != ys.length then (st, "bad-op") else
+    let pts := xs.zip ys
+    let vals := evalPts s pts
+    (st, s!"ok {showRatList vals} {showList showBool (pts.map (near tol s))} {showBool (vals == pts.map (val s))}")
+  else (st, "bad-op")
+
 def step (st : St) : List String → St × String
   | "eval" :: mode :: tol :: xs :: ys :: shape =>
     match parseRat? tol, parseRatList? xs, parseRatList? ys, parseWhole? shape with
-    | some tol, some xs, some ys, some s =>
-      if mode == "sep" then
-        let pts := sepPoints xs ys
-        let vals := evalSep s xs ys
-        (st, s!"ok {showRatList vals} {showList showBool (pts.map (near tol s))} {showBool (vals == pts.map (val s))}")
-      else if mode == "pts" then
-        if xs.length != ys.length then (st, "bad-op") else
-        let pts := xs.zip ys
-        let vals := evalPts s pts
-        (st, s!"ok {showRatList vals} {showList showBool (pts.map (near tol s))} {showBool (vals == pts.map (val s))}")
-      else (st, "bad-op")
+    | some tol, some xs, some ys, some s => evalResp st mode tol xs ys s
     | _, _, _, _ => (st, "bad-op")
+  -- the Keck pupil built inside the model from the integer ring arithmetic
+  | ["keck", mode, tol, xs, ys, rings, pitch, ap, segR, segA, dirs, trs, obsR, spiders, hw] =>
+    match parseRat? tol, parseRatList? xs, parseRatList? ys, parseNat? rings,
+          [pitch, ap, segR, segA, obsR, hw].mapM parseRat?,
+          (parseRatList? dirs).bind pairs?, parseRatList? trs, (parseRatList? spiders).bind pairs? with
+    | some tol, some xs, some ys, some rings, some [pitch, ap, segR, segA, obsR, hw], some dirs, some trs, some sp =>
+      if trs.length != (hexQR rings).length then (st, "bad-op") else
+      evalResp st mode tol xs ys (keckShape rings pitch ap segR segA dirs trs obsR sp hw)
+    | _, _, _, _, _, _, _, _ => (st, "bad-op")
+  | ["hexqr", rings] =>
+    match parseNat? rings with
+    | some n => (st, "ok " ++ ";".intercalate ((hexQR n).map fun qr => s!"{qr.1},{qr.2}"))
+    | none => (st, "bad-op")
   | "super" :: nx :: ny :: tol :: xs :: ys :: shape =>
     match parseNat? nx, parseNat? ny, parseRat? tol, parseRatList? xs, parseRatList? ys, parseWhole? shape with
     | some nx, some ny, some tol, some xs, some ys, some s =>
